@@ -7,7 +7,7 @@ Predicate on the implementation: validating with the flag equals validating the 
 """
 from __future__ import annotations
 
-from .. import evalenv, extract, valgen as V
+from .. import evaluation as E, evalenv, extract, valgen as V
 from ..common import Ctx
 from . import _valcommon as VC
 
@@ -35,7 +35,7 @@ def run(ctx: Ctx) -> None:
         ctx.lean_audit(MODULES)
         if not ctx.quick:
             ctx.lean_check_olean(MODULES)
-    evalenv.configure_cer_based()
+    E.configure(ctx.rng)  # evaluators: content-result based or evaluate_<key> methods, suspending under a random schedule half of the time
     runs = []
     for i in range(ctx.pick(90, 900)):
         g = V.Gen(ctx.rng, depth=ctx.rng.randint(1, ctx.pick(3, 4)), branching=ctx.rng.randint(1, 3), p_soll=0.45)
